@@ -40,11 +40,11 @@ func verifC02Check(label string, mi *MetaInfo, d Digest, blob []byte, p int64) {
 		verif.Assert(label+"-single-piece-sum", mi.GetPieceSum(0) == PieceSum(blob))
 		return
 	}
-	verif.Cover(label+"-several-pieces", true)
-	verif.Cover(label+"-exact-multiple", n%p == 0)
-	verif.Cover(label+"-short-last-piece", n%p != 0)
 	// np > 1 implies p < n, a small value
-	pl := int(p)
+	pl := verif.Concrete(int(p))
+	verif.Cover(label+"-several-pieces", true)
+	verif.Cover(label+"-exact-multiple", len(blob)%pl == 0)
+	verif.Cover(label+"-short-last-piece", len(blob)%pl != 0)
 	for i := 0; i < np; i++ {
 		lo := i * pl
 		hi := lo + pl
@@ -61,18 +61,50 @@ func verifC02Check(label string, mi *MetaInfo, d Digest, blob []byte, p int64) {
 	verif.Assert(label+"-out-of-range-piece-length", mi.GetPieceLength(np) == 0 && mi.GetPieceLength(-1) == 0)
 }
 
-// VerifMetaInfoGenerators: every blob length up to the bound, arbitrary
-// bytes, every int64 piece length.
-func VerifMetaInfoGenerators() {
+func verifC02Blob() (Digest, []byte) {
 	d, err := NewSHA256DigestFromHex(verifC02Name)
 	verif.Assert("digest", err == nil)
 	n := verif.Len("blob_len", 0, verif.Bound("blob_len", 5, 9))
-	blob := verif.Bytes("blob", n)
+	return d, verif.Bytes("blob", n)
+}
+
+// VerifMetaInfoFromBytes: the slice generator for every blob length up to
+// the bound, arbitrary bytes and EVERY int64 piece length.
+func VerifMetaInfoFromBytes() {
+	d, blob := verifC02Blob()
 	p := verif.Int64("piece_length")
+	m, err := NewMetaInfoFromBytes(d, blob, p)
+	verif.Cover("rejected", err != nil)
+	verif.Cover("accepted", err == nil)
+	verif.Assert("positive-piece-length-accepted", (err == nil) == (p > 0))
+	if err == nil {
+		verifC02Check("slice", m, d, blob, p)
+	}
+}
+
+// VerifMetaInfoGenerators: stream generator against the definition and
+// against the slice generator. The stream generator allocates a copy buffer
+// of min(pieceLength, 32768) bytes (io.Copy), which the engine can only do for
+// a concrete size, so the piece length is symbolic within three classes:
+// ≤ blob length + 1 (including zero and all negative values), ≥ 32768, and
+// three representatives of the single-piece middle range in between.
+func VerifMetaInfoGenerators() {
+	d, blob := verifC02Blob()
+	n := int64(len(blob))
+	var p int64
+	switch verif.Choice("piece_length_class", 3) {
+	case 0:
+		p = verif.Int64("piece_length")
+		verif.Assume(p <= n+1)
+	case 1:
+		p = verif.Int64("piece_length")
+		verif.Assume(p >= 32768)
+	case 2:
+		p = []int64{n + 2, 4096, 32767}[verif.Choice("middle_piece_length", 3)]
+	}
 
 	m1, err1 := NewMetaInfo(d, bytes.NewReader(blob), p)
 	m2, err2 := NewMetaInfoFromBytes(d, blob, p)
-
 	verif.Cover("rejected", err1 != nil)
 	verif.Cover("accepted", err1 == nil)
 	verif.Assert("generators-agree-on-acceptance", (err1 == nil) == (err2 == nil))
